@@ -205,3 +205,51 @@ pub fn run(seed: u64, n: usize, ipv6: bool) -> String {
     out.push_str("END\n");
     out
 }
+
+/// "No request prevents the endpoint from answering later requests": `k` connections ask for a large
+/// published asset and never read the answer; a later request for a small asset must still be answered
+/// and a publication must not block. Prints `STALL readers=<k> small_get=<status|timeout> publish_ms=<n>`.
+pub fn stall(k: usize, ipv6: bool) -> String {
+    let ip: IpAddr = if ipv6 { IpAddr::V6(Ipv6Addr::LOCALHOST) } else { IpAddr::V4(Ipv4Addr::LOCALHOST) };
+    let port = free_port(ip);
+    let mut ep = AssetEndpoint::new(ip, port, 100_000_000);
+    let addr = SocketAddr::new(ip, port);
+    std::thread::sleep(Duration::from_millis(30));
+    let big = Uuid::from_u128(0xB16);
+    let small = Uuid::from_u128(0x5A11);
+    ep.serve_audio(&big, &AudioSource { bytes: vec![7u8; 48 << 20].into() });
+    ep.serve_audio(&small, &AudioSource { bytes: vec![1u8, 2, 3].into() });
+    let mut stalled = vec![];
+    for _ in 0..k {
+        if let Ok(mut s) = TcpStream::connect_timeout(&addr, Duration::from_secs(5)) {
+            let _ = s.write_all(format!("GET /audio/{} HTTP/1.1\r\nHost: x\r\n\r\n", big).as_bytes());
+            stalled.push(s);      // kept open, never read
+        }
+    }
+    std::thread::sleep(Duration::from_millis(400));
+    // a later request, answered within three seconds?
+    let (tx, rx) = std::sync::mpsc::channel();
+    std::thread::spawn(move || {
+        let a = raw_request(addr, "GET", format!("/audio/{}", small).as_bytes(), false);
+        let _ = tx.send(a.map(|a| (a.status, a.body)));
+    });
+    let small_get = match rx.recv_timeout(Duration::from_secs(3)) {
+        Ok(Some((st, body))) => format!("{}:{}", st, hex(&body)),
+        Ok(None) => "noanswer".to_string(),
+        Err(_) => "timeout".to_string(),
+    };
+    // a publication while the readers stall: must not wait for them
+    let t0 = std::time::Instant::now();
+    let (tx2, rx2) = std::sync::mpsc::channel();
+    std::thread::spawn(move || {
+        ep.serve_audio(&Uuid::from_u128(0x9E3), &AudioSource { bytes: vec![9u8; 10].into() });
+        let _ = tx2.send(());
+        std::thread::sleep(Duration::from_secs(30));
+    });
+    let publish_ms = match rx2.recv_timeout(Duration::from_secs(3)) {
+        Ok(()) => t0.elapsed().as_millis().to_string(),
+        Err(_) => "timeout".to_string(),
+    };
+    drop(stalled);
+    format!("STALL readers={} small_get={} publish_ms={}\n", k, small_get, publish_ms)
+}
